@@ -48,13 +48,24 @@ def gen_scenario(ctx, k):
         uids.add(b['uid'])
     d = cfggen.write_config(cfg, cfg_dir(f'c15_{k}'))
     nodes = cfggen.assign_tree(rng, cfg, absent_prob=0.25, unknown=rng.randrange(0, 3), unknown_hubs=rng.choice([0, 0, 1, 2]))
-    m = statemodel.Model(cfg, nodes)
     sc = Scn(seed=ctx.seed * 71 + k, watchdog=300000)
     sc.add(*cfggen.bus_lines(cfg, nodes), 'bus brackets 1')
     tabchange = None
     if rng.random() < 0.5:
         tabchange = rng.randrange(0, max(1, len(nodes)))
-        sc.add(f'bus tabchange {tabchange}')
+        kids = [(a, u) for a, u in nodes if a != (0, 0, 0) and a[1] == 0]
+        by_uid_ = {b['uid']: b for b in cfg['boards']}
+        cand = [ci for ci, (a, u) in enumerate(kids[:-1]) if u in by_uid_ and not cfggen.is_interface(by_uid_[u])]
+        if cand and rng.random() < 0.5:
+            # the change IS a node that dropped off the bus after its row had been read: the read-in that follows does not list it any more
+            ci = rng.choice(cand)
+            xa = kids[ci][0]
+            tabchange = ci + 2
+            sc.add(f'bus tabchange {tabchange} del {xa[0]}.{xa[1]}.{xa[2]}')
+            nodes = [(a, u) for a, u in nodes if a != xa]
+        else:
+            sc.add(f'bus tabchange {tabchange}')
+    m = statemodel.Model(cfg, nodes)
     sc.add(f'start {d} 0', 'quiesce', 'snap s0')
     notices = []
     repeatable = []
